@@ -5,6 +5,7 @@ import RtenVerif.Lemmas.Gather
 import RtenVerif.Lemmas.SliceT1
 import RtenVerif.Lemmas.AxisSel
 import RtenVerif.Lemmas.WF
+import RtenVerif.Lemmas.Broadcast
 
 /-!
 # C09 — Layout transformations match a reference array model
@@ -580,6 +581,171 @@ theorem c09_split_at (v : View) (axis mid : Nat) (right : Bool) (s : Nat → α)
   · rw [if_neg hc, if_neg hc]
     exact ⟨rfl, fun v' h => by cases h⟩
 
+theorem canBroadcast_eq (d : Dims) (t : List Nat) :
+    NArr.canBroadcast (sizes d) t = canBroadcastTo d t := by
+  unfold NArr.canBroadcast canBroadcastTo
+  by_cases h : d.length > t.length
+  · rw [if_pos h]
+    have : decide ((sizes d).length ≤ t.length) = false := by simp; omega
+    rw [this]; rfl
+  · rw [if_neg h]
+    have : decide ((sizes d).length ≤ t.length) = true := by simp; omega
+    rw [this, sizes_length]; rfl
+
+theorem broadcast_zip (d : Dims) (t : List Nat) (hle : d.length ≤ t.length) :
+    List.zip t (broadcastStrides d t) =
+      List.zip (t.take (t.length - d.length)) (List.replicate (t.take (t.length - d.length)).length 0) ++
+      List.zip (t.drop (t.length - d.length))
+        (List.zipWith (fun (p : Nat × Nat) tt => if p.1 == 1 && decide (tt > 1) then 0 else p.2)
+          d (t.drop (t.length - d.length))) := by
+  have htl : (t.take (t.length - d.length)).length = t.length - d.length := by
+    rw [List.length_take]; omega
+  have hz := List.zip_append (l₁ := t.take (t.length - d.length))
+    (r₁ := t.drop (t.length - d.length))
+    (l₂ := List.replicate (t.take (t.length - d.length)).length 0)
+    (r₂ := List.zipWith (fun (p : Nat × Nat) tt => if p.1 == 1 && decide (tt > 1) then 0 else p.2)
+        d (t.drop (t.length - d.length))) (by rw [List.length_replicate])
+  rw [List.take_append_drop] at hz
+  have hstr : broadcastStrides d t =
+      List.replicate (t.take (t.length - d.length)).length 0 ++
+        List.zipWith (fun (p : Nat × Nat) tt => if p.1 == 1 && decide (tt > 1) then 0 else p.2)
+          d (t.drop (t.length - d.length)) := by
+    unfold broadcastStrides
+    rw [htl]
+  rw [hstr]
+  exact hz
+
+/-- Broadcasting never needs more storage than the source layout. -/
+theorem WF_broadcast (v v' : View) (t : List Nat) (hp : broadcast v t = .ok v') (h : WF v) :
+    WF v' := by
+  unfold broadcast at hp
+  split at hp
+  · rename_i hc
+    injection hp with hp
+    subst hp
+    unfold WF at h ⊢
+    simp only []
+    have hle : v.dims.length ≤ t.length := by
+      unfold canBroadcastTo at hc
+      by_cases h : v.dims.length > t.length
+      · rw [if_pos h] at hc; cases hc
+      · omega
+    have hall : (List.zip (sizes v.dims) (t.drop (t.length - v.dims.length))).all
+        (fun (a, b) => a == b || a == 1) = true := by
+      unfold canBroadcastTo at hc
+      rw [if_neg (by omega)] at hc
+      exact hc
+    have hdl : (t.drop (t.length - v.dims.length)).length = v.dims.length := by
+      rw [List.length_drop]; omega
+    by_cases he : numelD (List.zip t (broadcastStrides v.dims t)) = 0
+    · rw [minDataLen_empty _ he]; omega
+    · have hsz : sizes (List.zip t (broadcastStrides v.dims t)) = t := by
+        unfold sizes
+        apply List.map_fst_zip
+        unfold broadcastStrides
+        rw [List.length_append, List.length_replicate, List.length_zipWith, hdl]
+        omega
+      have hnt : numel t ≠ 0 := by unfold numelD at he; rwa [hsz] at he
+      have hntr : numel (t.drop (t.length - v.dims.length)) ≠ 0 := by
+        rw [← List.take_append_drop (t.length - v.dims.length) t, numel_append] at hnt
+        exact fun h => hnt (by simp [h])
+      obtain ⟨hsum, hne⟩ := bc_sum v.dims _ hdl hall
+      rw [minDataLen_nonempty _ he, minDataLen_nonempty _ (hne hntr), broadcast_zip _ _ hle,
+        List.map_append, List.sum_append, sum_zip_zero, hsum] at *
+      omega
+  · cases hp
+
+/-- **C09.T1 broadcast** (`try_broadcast`, stride-0 axes): `numpy.broadcast_to(a, target)`, or both
+report an error (incompatible shapes). -/
+theorem c09_broadcast (v : View) (t : List Nat) (s : Nat → α) :
+    (broadcast v t).map (fun v' => denote v' s) = (denote v s).broadcastTo t := by
+  unfold broadcast NArr.broadcastTo
+  have hsh : (denote v s).shape = sizes v.dims := rfl
+  rw [hsh, canBroadcast_eq]
+  by_cases hc : canBroadcastTo v.dims t = true
+  · rw [if_pos hc, if_pos hc]
+    simp only [Except.map]
+    congr 1
+    have hle : v.dims.length ≤ t.length := by
+      unfold canBroadcastTo at hc
+      by_cases h : v.dims.length > t.length
+      · rw [if_pos h] at hc; cases hc
+      · omega
+    have hall : (List.zip (sizes v.dims) (t.drop (t.length - v.dims.length))).all
+        (fun (a, b) => a == b || a == 1) = true := by
+      unfold canBroadcastTo at hc
+      rw [if_neg (by omega)] at hc
+      exact hc
+    have hdl : (t.drop (t.length - v.dims.length)).length = v.dims.length := by
+      rw [List.length_drop]; omega
+    have htl : (t.take (t.length - v.dims.length)).length = t.length - v.dims.length := by
+      rw [List.length_take]; omega
+    have hstr : broadcastStrides v.dims t =
+        List.replicate (t.take (t.length - v.dims.length)).length 0 ++
+          List.zipWith (fun (p : Nat × Nat) tt => if p.1 == 1 && decide (tt > 1) then 0 else p.2)
+            v.dims (t.drop (t.length - v.dims.length)) := by
+      unfold broadcastStrides
+      rw [htl]
+    have hzip : List.zip t (broadcastStrides v.dims t) =
+        List.zip (t.take (t.length - v.dims.length))
+          (List.replicate (t.take (t.length - v.dims.length)).length 0) ++
+        List.zip (t.drop (t.length - v.dims.length))
+          (List.zipWith (fun (p : Nat × Nat) tt => if p.1 == 1 && decide (tt > 1) then 0 else p.2)
+            v.dims (t.drop (t.length - v.dims.length))) := by
+      have hz := List.zip_append (l₁ := t.take (t.length - v.dims.length))
+        (r₁ := t.drop (t.length - v.dims.length))
+        (l₂ := List.replicate (t.take (t.length - v.dims.length)).length 0)
+        (r₂ := List.zipWith (fun (p : Nat × Nat) tt => if p.1 == 1 && decide (tt > 1) then 0 else p.2)
+            v.dims (t.drop (t.length - v.dims.length))) (by rw [List.length_replicate])
+      rw [List.take_append_drop] at hz
+      rw [hstr]
+      exact hz
+    rw [sizes_length]
+    apply denote_refines v _ s (NArr.bcSrc (sizes v.dims) (t.length - v.dims.length))
+    · show sizes (List.zip t (broadcastStrides v.dims t)) = t
+      unfold sizes
+      apply List.map_fst_zip
+      unfold broadcastStrides
+      rw [List.length_append, List.length_replicate, List.length_zipWith, hdl]
+      omega
+    · intro idx h
+      have hl := validIdx_length h
+      rw [← List.take_append_drop (t.length - v.dims.length) t,
+        ← List.take_append_drop (t.length - v.dims.length) idx,
+        validIdx_append _ _ _ _ (by rw [htl, List.length_take]; omega)] at h
+      simp only [Bool.and_eq_true] at h
+      exact (bc_core v.dims _ _ hdl hall h.2).1
+    · intro idx h
+      have hl := validIdx_length h
+      show v.base + offset (List.zip t (broadcastStrides v.dims t)) idx = _
+      congr 1
+      have h' := h
+      rw [← List.take_append_drop (t.length - v.dims.length) t,
+        ← List.take_append_drop (t.length - v.dims.length) idx,
+        validIdx_append _ _ _ _ (by rw [htl, List.length_take]; omega)] at h'
+      simp only [Bool.and_eq_true] at h'
+      rw [hzip]
+      have hidx : offset
+          (List.zip (t.take (t.length - v.dims.length))
+              (List.replicate (t.take (t.length - v.dims.length)).length 0) ++
+            List.zip (t.drop (t.length - v.dims.length))
+              (List.zipWith (fun (p : Nat × Nat) tt => if p.1 == 1 && decide (tt > 1) then 0 else p.2)
+                v.dims (t.drop (t.length - v.dims.length)))) idx =
+          offset
+          (List.zip (t.take (t.length - v.dims.length))
+              (List.replicate (t.take (t.length - v.dims.length)).length 0) ++
+            List.zip (t.drop (t.length - v.dims.length))
+              (List.zipWith (fun (p : Nat × Nat) tt => if p.1 == 1 && decide (tt > 1) then 0 else p.2)
+                v.dims (t.drop (t.length - v.dims.length))))
+          (idx.take (t.length - v.dims.length) ++ idx.drop (t.length - v.dims.length)) := by
+        rw [List.take_append_drop]
+      rw [hidx]
+      rw [offset_append _ _ _ _ (by
+        rw [List.length_zip, List.length_replicate, Nat.min_self, htl, List.length_take]; omega)]
+      rw [offset_zip_zero, Nat.zero_add]
+      exact (bc_core v.dims _ _ hdl hall h'.2).2
+  · rw [if_neg hc, if_neg hc]; rfl
+
 /-! ## T2: chains of operations compose -/
 
 /-- The view operations covered by a T1 theorem above. -/
@@ -593,6 +759,7 @@ inductive VOp
   | sl (items : List SliceItem)
   | sa (axis start stop : Nat)
   | split (axis mid : Nat) (right : Bool)
+  | bc (target : List Nat)
 
 def VOp.applyL : VOp → View → Except Err View
   | .tr, v => .ok (transposed v)
@@ -604,6 +771,7 @@ def VOp.applyL : VOp → View → Except Err View
   | .sl items, v => trySlice v items
   | .sa a b c, v => sliceAxis v a b c
   | .split a m r, v => splitAt v a m r
+  | .bc t, v => broadcast v t
 
 def VOp.applyR : VOp → NArr α → Except Err (NArr α)
   | .tr, A => .ok A.transpose
@@ -615,6 +783,7 @@ def VOp.applyR : VOp → NArr α → Except Err (NArr α)
   | .sl items, A => A.slice (items.map toRefItem)
   | .sa a b c, A => A.sliceAxis a b c
   | .split a m r, A => A.splitAt a m r
+  | .bc t, A => A.broadcastTo t
 
 /-- Slice ranges are built by `SliceRange::new`, which rejects a zero step. -/
 def VOp.stepsOk : VOp → Prop
@@ -642,6 +811,7 @@ theorem c09_step (op : VOp) (v : View) (s : Nat → α) (hwf : WF v) (hs : op.st
   | sl items => exact c09_slice v items s hwf hs
   | sa a b c => exact c09_slice_axis v a b c s hwf
   | split a m r => exact c09_split_at v a m r s hwf
+  | bc t => exact ⟨c09_broadcast v t s, fun v' h => WF_broadcast v v' t h hwf⟩
 
 def chainL : List VOp → View → Except Err View
   | [], v => .ok v
